@@ -13,6 +13,24 @@ def handle (ws : List String) : String :=
         let r := f.report
         if r.ok then s!"ok wf surfs={f.surfs.length} vols={f.vols.length} comps={f.comps.length} bcs={f.bcs.length}"
         else "ok bad " ++ hex (toString (repr r))
+  | ["t4dump", hx] =>
+      -- what the Lean reader sees in a written file: surfaces (exact bit patterns) and volumes
+      (match unhex hx with
+       | none => "err bad-hex"
+       | some txt =>
+         let f := T4File.read txt
+         let fl (xs : List Float) := ",".intercalate (xs.map fun v => toString v.toBits)
+         let ss := f.surfs.map fun (i, s) =>
+           s!"S:{i}:{s.kind.toString}:{fl s.ps}:" ++ (match s.tr with
+             | some (t, m) => fl (t.toList ++ m.toList)
+             | none => "-")
+         let nat (xs : List Nat) := ",".intercalate (xs.map toString)
+         let vs := f.vols.map fun v =>
+           s!"V:{v.id}:{nat v.pluses}:{nat v.minuses}:" ++ (match v.op with
+             | some (.union, ids) => "UNION," ++ nat ids
+             | some (.inte, ids) => "INTE," ++ nat ids
+             | none => "-") ++ s!":{if v.fictive then 1 else 0}"
+         "ok " ++ " ".intercalate (ss ++ vs))
   | "monitor" :: hd :: ht :: wc :: eps :: pts =>
       match unhex hd >>= Sexp.parse >>= decodeDeck, unhex ht, parseFloat? eps with
       | some d, some txt, some e =>
